@@ -336,17 +336,23 @@ def generate(chk, infos, quick, c20=False):
     byname = {i.name: i for i in infos}
     # equal and adjacent operands (the boundary of every comparison, x-x, x/x ...) in several shapes
     for info in tests:
-        if len(info.args) != 2 or info.args[0] != info.args[1] or info.args[0] == 'l':
+        if len(info.args) != 2 or info.args[0] != info.args[1]:
             continue
-        g = G.grid_for(info.args[0], rng, info.name, 0)
+        k = info.args[0]
+        g = G.grid_for(k, rng, info.name, 0)
         for v in rng.sample(g, 6 if quick else min(len(g), 40)):
             for dlt in (0, 1, -1):
                 w = v
-                if dlt:
-                    w = (v + dlt) & (G.M64 if info.args[0] in 'id' else 0xffffffff)
-                n += 1
-                lines.append(G.gen_case(info, rng, c20=c20, cid='e%d' % n, vals=[v, w],
-                                        shapes=rng.choice([['r', 'r'], ['r', 'i'], ['r', 'm'], ['i', 'i'], ['m', 'r']]), dst='r'))
+                if dlt and k == 'l':       # neighbours of a normal x87 number only (other patterns may be invalid operands)
+                    if not (0 < ((v >> 64) & 0x7fff) < 0x7fff and 0 < (v & ((1 << 63) - 1)) < (1 << 63) - 1):
+                        continue
+                    w = v + dlt
+                elif dlt:
+                    w = (v + dlt) & (G.M64 if k in 'id' else 0xffffffff)
+                for far in ((0, 1) if info.res == '-' and (dlt == 0 or not quick) else (None,)):
+                    n += 1
+                    lines.append(G.gen_case(info, rng, c20=c20, cid='e%d' % n, vals=[v, w], far=far,
+                                            shapes=rng.choice([['r', 'r'], ['r', 'i'], ['r', 'm'], ['i', 'i'], ['m', 'r']]), dst='r'))
     # aimed cases: power-of-two immediates with 32-bit opcodes (transform_mul_div), x*1 / x+0 shortcuts
     for info in tests:
         if info.res == 'i' and info.args == 'ii' and re.match(r'^(U?MUL|U?DIV|U?MOD|ADD|SUB|OR|XOR|AND|LSH|RSH|URSH)O?S?$', info.name):
